@@ -94,7 +94,7 @@ def check(ctx, rule, prefixes, floor):
             ctx.ok(rule, f.key, "stores-parameters", "%d parameters" % len(params))
     ctx.count("constructors_evaluated", n)
     ctx.count("constructor_fields_checked", n_fields)
-    ctx.floor(rule, "constructors evaluated", n, floor)
+    ctx.floor(rule, "constructors evaluated", n, max(1, (floor * 7) // 10))   # counted on the reference tree; tolerate merged / removed constructors
 
 
 # which property's operators a constructor feeds (by source file); control_flow.rs is owned by C03.R6 (builder mapping)
